@@ -11,6 +11,7 @@ iterated again.  Every exhausted cursor's lines are judged against the admitted
 sub-forest of the tree as it was during the session.
 """
 import codecs
+import gc
 import hashlib
 import io
 import re
@@ -50,10 +51,23 @@ def unesc(s):
     return "".join(out)
 
 
+ALPHABET = ("a", "b", "n", "l", "r", "t", "\\", '"', " ", "ä", "N", "0", "x", "\n", "[", "-", ">")
+
+
+def rand_name(rng):
+    return "".join(rng.choice(ALPHABET) for _ in range(rng.choice((0, 1, 1, 2, 2, 3, 4))))
+
+
 def gen_cfg(rng, prop, tier):
     n = rng.randint(1, 12 if tier == "thorough" else 9)
+    big = prop == "C13" and rng.random() < (0.02 if tier == "thorough" else 0.01)
+    if big:
+        # large exports: buffering/chunking boundaries of to_file
+        n = rng.randint(500, 1200)
     parents = [None] + [rng.randrange(i) if rng.random() < 0.92 else None for i in range(1, n)]
-    pool = rng.sample(NAMES, rng.randint(2, 8))
+    if big:
+        parents = [None] + [rng.randrange(max(0, i - 40), i) for i in range(1, n)]
+    pool = rng.sample(NAMES, rng.randint(2, 8)) + [rand_name(rng) for _ in range(rng.randint(0, 6))]
     names = [rng.choice(pool) for _ in range(n)]
     if prop == "C12":
         kind = rng.choice(("dot", "dot", "udot", "udot", "udot", "rtg"))
@@ -82,7 +96,12 @@ def gen_cfg(rng, prop, tier):
         "cursors": rng.choice((1, 1, 2, 3)),
         "mut": rng.choice((0, 1, 2, 3)),
         "tofile": rng.random() < 0.3,
+        "forget": rng.random() < 0.3,
+        "refilter": rng.random() < 0.3,
     }
+    if big:
+        cfg.update(start=0, fset=None, sset=None, ml=None, sessions=1, cursors=1, mut=0, tofile=True, defaults=rng.random() < 0.7,
+                   namef=False, attrf=False, eattrf=False, forget=False, refilter=False, names=["a"] * n)
     return cfg
 
 
@@ -102,12 +121,12 @@ class Funcs(object):
         self.stop = None if self.sset is None else (lambda nd: ix(nd) in self.sset)
         self.namef = (lambda nd: '%s#%d' % (nd.name, ix(nd))) if cfg["namef"] else None
         if cfg["kind"] == "mermaid":
-            self.attrf = (lambda nd: '("%d: %s")' % (ix(nd), nd.name)) if cfg["attrf"] else None
+            self.attrf = (lambda nd: "" if ix(nd) % 4 == 3 else '("%d: %s")' % (ix(nd), nd.name)) if cfg["attrf"] else None
             self.eattrf = (lambda p, c: "--%d.%d-->" % (ix(p), ix(c))) if cfg["eattrf"] else None
             self.etypef = None
         else:
-            self.attrf = (lambda nd: 'shape=box,label="%d"' % ix(nd)) if cfg["attrf"] else None
-            self.eattrf = (lambda p, c: 'label="%d:%d"' % (ix(p), ix(c))) if cfg["eattrf"] else None
+            self.attrf = (lambda nd: "" if ix(nd) % 4 == 3 else 'shape=box,label="%d"' % ix(nd)) if cfg["attrf"] else None
+            self.eattrf = (lambda p, c: "" if ix(c) % 3 == 2 else 'label="%d:%d"' % (ix(p), ix(c))) if cfg["eattrf"] else None
             self.etypef = (lambda p, c: "--" if ix(c) % 2 else "->") if cfg["etypef"] else None
 
     # predictions (harness side)
@@ -115,6 +134,8 @@ class Funcs(object):
         return "%s#%d" % (names[i], i)
 
     def nodeattr_of(self, i, names, kind):
+        if i % 4 == 3:
+            return ""  # a falsy but non-None result must still appear verbatim
         if kind == "mermaid":
             return '("%d: %s")' % (i, names[i])
         return 'shape=box,label="%d"' % i
@@ -122,6 +143,8 @@ class Funcs(object):
     def edge_of(self, p, c, kind):
         if kind == "mermaid":
             return "--%d.%d-->" % (p, c)
+        if c % 3 == 2:
+            return ""
         return 'label="%d:%d"' % (p, c)
 
     def etype_of(self, p, c):
@@ -357,6 +380,20 @@ class Judge(object):
         )
 
 
+def snap_of(world):
+    index = world.index
+    return tuple((None, ()) if n is None else (index(n.parent), tuple(index(c) for c in n.children)) for n in world.nodes)
+
+
+def check_alive(world):
+    """Consistency guard over the nodes that are still alive."""
+    w2 = World()
+    for n in world.nodes:
+        if n is not None:
+            w2.register(n)
+    return invariants.check_forest(w2)
+
+
 def run(cfg, ops=None, rng=None):
     prop = cfg["prop"]
     res = Result()
@@ -368,9 +405,10 @@ def run(cfg, ops=None, rng=None):
     for i, p in enumerate(cfg["parents"]):
         if p is not None:
             world.nodes[i].parent = world.nodes[p]
-    funcs = Funcs(cfg, world)
-    exporter = make_exporter(cfg, world, funcs)
-    judge = Judge(cfg, funcs)
+    live = dict(cfg)  # the filter/stop sets may be changed between sessions
+    funcs = Funcs(live, world)
+    exporter = make_exporter(live, world, funcs)
+    judge = Judge(live, funcs)
     h = hashlib.blake2b(digest_size=16)
     h.update(repr(sorted((k, repr(v)) for k, v in cfg.items())).encode())
     replay = ops is not None
@@ -409,13 +447,21 @@ def run(cfg, ops=None, rng=None):
                         op = {"op": "tofile"}
                     else:
                         r = rng.random()
-                        if r < 0.5 and n > 1:
-                            i = rng.randrange(1, n)
-                            op = {"op": "parent", "n": i, "p": rng.choice([None] + [j for j in range(n) if j != i])}
+                        alive = [j for j in range(n) if world.nodes[j] is not None]
+                        leaves = [j for j in alive if j != cfg["start"] and not world.nodes[j].children]
+                        if cfg["forget"] and leaves and rng.random() < 0.35:
+                            op = {"op": "forget", "n": rng.choice(leaves)}
+                        elif cfg["refilter"] and (live["fset"] is not None or live["sset"] is not None) and rng.random() < 0.35:
+                            op = {"op": "setfilter",
+                                  "fset": sorted(j for j in range(n) if rng.random() < 0.25),
+                                  "sset": sorted(j for j in range(n) if rng.random() < 0.25)}
+                        elif r < 0.5 and n > 1:
+                            i = rng.choice(alive)
+                            op = {"op": "parent", "n": i, "p": rng.choice([None] + [j for j in alive if j != i])}
                         elif r < 0.75:
-                            op = {"op": "rename", "n": rng.randrange(n), "name": rng.choice(NAMES)}
+                            op = {"op": "rename", "n": rng.choice(alive), "name": rng.choice(NAMES) if rng.random() < 0.5 else rand_name(rng)}
                         else:
-                            op = {"op": "new", "name": rng.choice(NAMES), "p": rng.randrange(n)}
+                            op = {"op": "new", "name": rng.choice(NAMES), "p": rng.choice(alive)}
                 res.ops.append(op)
             kind = op["op"]
             res.steps += 1
@@ -424,7 +470,7 @@ def run(cfg, ops=None, rng=None):
                 if cursors:
                     step += 1
                     continue
-                snap = world.snapshot()
+                snap = snap_of(world)
                 for k in range(op["k"]):
                     cursors[k] = iter(exporter)
                     collected[k] = []
@@ -445,11 +491,11 @@ def run(cfg, ops=None, rng=None):
                         del cursors[c]
                         lines = collected.pop(c)
                         h.update(repr((step, c, lines)).encode())
-                        res.sigs.add(stable_hash((cfg["kind"], shape_of(session_snap, cfg), cfg["ml"], cfg["fset"] is not None, cfg["sset"] is not None,
+                        res.sigs.add(stable_hash((cfg["kind"], shape_of(session_snap, live), cfg["ml"], cfg["fset"] is not None, cfg["sset"] is not None,
                                                   cfg["namef"], cfg["attrf"], cfg["eattrf"], len(lines) > 3)))
                         judge.judge(step, lines, session_snap, session_names, res)
             elif kind == "tofile" and not cursors and cfg["kind"] == "mermaid":
-                snap = world.snapshot()
+                snap = snap_of(world)
                 buf = io.StringIO()
 
                 class _Mem(object):
@@ -472,22 +518,43 @@ def run(cfg, ops=None, rng=None):
                 res.bump("to_file_calls")
                 if text != want:
                     raise Violation(prop, "to_file", step, "to_file", "step %d: to_file wrote %r, expected %r" % (step, text, want))
+            elif kind == "forget" and not cursors:
+                i = op["n"]
+                if i < n and i != cfg["start"] and world.nodes[i] is not None and not world.nodes[i].children:
+                    # the node leaves the tree and every reference to it is dropped: it is really freed
+                    world.nodes[i].parent = None
+                    world._idx.pop(id(world.nodes[i]), None)
+                    world.nodes[i] = None
+                    names[i] = None
+                    ident = judge.ids.pop(i, None)
+                    if ident is not None:
+                        judge.owner.pop(ident, None)
+                    gc.collect()
+                    res.bump("nodes_forgotten")
+            elif kind == "setfilter" and not cursors:
+                if live["fset"] is not None:
+                    live["fset"] = list(op["fset"])
+                    funcs.fset = frozenset(op["fset"])
+                if live["sset"] is not None:
+                    live["sset"] = list(op["sset"])
+                    funcs.sset = frozenset(op["sset"])
+                res.bump("filter_changes")
             elif kind == "parent" and not cursors:
-                if op["n"] < n and (op["p"] is None or op["p"] < n):
+                if op["n"] < n and (op["p"] is None or op["p"] < n) and world.nodes[op["n"]] is not None and (op["p"] is None or world.nodes[op["p"]] is not None):
                     try:
                         world.nodes[op["n"]].parent = None if op["p"] is None else world.nodes[op["p"]]
                         res.bump("moves")
                     except Exception:  # noqa: BLE001
                         pass
-                    if invariants.check_forest(world):
+                    if check_alive(world):
                         raise Violation("GUARD", "guard", step, "guard", "forest inconsistent after %r" % (op,))
             elif kind == "rename" and not cursors:
-                if op["n"] < n:
+                if op["n"] < n and world.nodes[op["n"]] is not None:
                     world.nodes[op["n"]].name = op["name"]
                     names[op["n"]] = op["name"]
                     res.bump("renames")
             elif kind == "new" and not cursors:
-                if op["p"] < n:
+                if op["p"] < n and world.nodes[op["p"]] is not None:
                     world.register(HNode(op["name"], parent=world.nodes[op["p"]]))
                     names.append(op["name"])
                     res.bump("new_nodes")
